@@ -20,18 +20,19 @@ module.exports.run_case = async function (c, repo) {
     const A = JSON.parse(JSON.stringify(c.A));
     const B = c.B ? JSON.parse(JSON.stringify(c.B)) : null;
     const objsA = objs(A), objsB = B ? objs(B) : null;
+    const names = c.names ? c.names.slice() : null;
     const sink = new Sink();
     const w = new rbql_csv.CSVWriter(sink, false, 'utf-8', c.dlm, c.pol);
     const reg = B === null ? null : new rbql.SingleTableRegistry(B);
     let err = null;
     try {
-        await rbql.query(c.qjs, new rbql.TableIterator(A), w, [], reg);
+        await rbql.query(c.qjs, new rbql.TableIterator(A, names), w, [], reg);
     } catch (e) {
         const n = (e && e.constructor && e.constructor.name) || 'Error';
         err = [n.includes('Parsing') ? 'P' : n.includes('Runtime') ? 'R' : n.includes('IOHandling') ? 'IO' : 'O', 0, null];
     }
     const same = (x, y) => x.length === y.length && x.every((o, i) => o === y[i]);
-    let ok = JSON.stringify(A) === JSON.stringify(c.A) && same(objs(A), objsA);
+    let ok = JSON.stringify(A) === JSON.stringify(c.A) && same(objs(A), objsA) && JSON.stringify(names) === JSON.stringify(c.names || null);
     if (B) ok = ok && JSON.stringify(B) === JSON.stringify(c.B) && same(objs(B), objsB);
-    return {sources_ok: ok, error: err, out: Buffer.concat(sink.chunks).toString('utf-8'), A_after: ok ? null : A};
+    return {sources_ok: ok, error: err, out: Buffer.concat(sink.chunks).toString('utf-8'), A_after: ok ? null : A, names_after: ok ? null : names};
 };
